@@ -12,6 +12,59 @@ import (
 
 type settleAnalysis struct {
 	memo map[string]bool
+	// the promise under examination may be kept in a field of a task object built by the creating function
+	holderObj   ssa.Value
+	holderField int
+}
+
+// isHeldPromise: v is the promise kept in field holderField of the object obj (a load of that field).
+func isHeldPromise(v ssa.Value, obj ssa.Value, field int) bool {
+	ld, ok := v.(*ssa.UnOp)
+	if !ok || ld.Op != token.MUL {
+		return false
+	}
+	fa, ok := ld.X.(*ssa.FieldAddr)
+	return ok && fa.Field == field && canon(fa.X) == canon(obj)
+}
+
+// settlesAllField: every path through fn settles the promise kept in field `field` of the object in parameter / capture obj.
+func (a *settleAnalysis) settlesAllField(fn *ssa.Function, obj ssa.Value, field int, depth int) bool {
+	key := fmt.Sprintf("%p|%s|f%d", fn, obj.Name(), field)
+	if r, ok := a.memo[key]; ok {
+		return r
+	}
+	a.memo[key] = false
+	rets := returnsOf(fn)
+	ok := len(rets) > 0
+	for _, r := range rets {
+		if reachAvoiding(fn, nil, r, func(i ssa.Instruction) bool {
+			ci, isCall := i.(ssa.CallInstruction)
+			if !isCall {
+				return false
+			}
+			if _, isDefer := i.(*ssa.Defer); isDefer {
+				return false
+			}
+			com := ci.Common()
+			if sc := com.StaticCallee(); isPromiseDone(sc) && len(com.Args) > 0 && isHeldPromise(com.Args[0], obj, field) {
+				return true
+			}
+			callee, mc := calleeOf(ci)
+			if callee == nil || !isModuleFn(callee) || depth > 3 {
+				return false
+			}
+			for _, inner := range boundIn(ci, callee, mc, canon(obj)) {
+				if a.settlesAllField(callee, inner, field, depth+1) {
+					return true
+				}
+			}
+			return false
+		}) {
+			ok = false
+		}
+	}
+	a.memo[key] = ok
+	return ok
 }
 
 func isPromiseDone(sc *ssa.Function) bool {
@@ -53,6 +106,14 @@ func (a *settleAnalysis) settles(ins ssa.Instruction, cv ssa.Value, depth int) b
 		for _, inner := range boundIn(x, callee, mc, cv) {
 			if a.settlesAll(callee, inner, depth+1) {
 				return true
+			}
+		}
+		// the promise travels inside a task object handed to (or started as a goroutine of) a function that settles the field
+		if a.holderObj != nil {
+			for _, inner := range boundIn(x, callee, mc, canon(a.holderObj)) {
+				if a.settlesAllField(callee, inner, a.holderField, depth+1) {
+					return true
+				}
 			}
 		}
 	}
@@ -139,11 +200,23 @@ var ruleA1 = &Rule{
 						continue
 					}
 					cv := canon(call)
+					a.holderObj, a.holderField = nil, 0
+					if refs := call.Referrers(); refs != nil {
+						for _, rf := range *refs {
+							if st, ok := rf.(*ssa.Store); ok && st.Val == ssa.Value(call) {
+								if fa, ok := st.Addr.(*ssa.FieldAddr); ok {
+									if al, ok := canon(fa.X).(*ssa.Alloc); ok && al.Parent() == fn {
+										a.holderObj, a.holderField = fa.X, fa.Field
+									}
+								}
+							}
+						}
+					}
 					for _, r := range returnsOf(fn) {
 						// returns that hand the promise to the caller, on paths on which the creation was executed
 						returnsIt := false
 						for _, res := range r.Results {
-							if canon(res) == cv {
+							if canon(res) == cv || (a.holderObj != nil && isHeldPromise(res, a.holderObj, a.holderField)) {
 								returnsIt = true
 							}
 						}
